@@ -17,6 +17,9 @@ const sh = (c, o) => spawnSync('bash', ['-c', c], Object.assign({ encoding: 'utf
 if (sh('git -C /repo status --porcelain').stdout.trim()) { console.error('/repo is not clean'); process.exit(2) }
 const restore = () => { sh('git -C /repo checkout -- . && git -C /repo clean -fdq -- src js main.js') }
 const out = { patch, applied: false, compiles: null, tests: null, fired: [], silent: [], details: {} }
+// the checks rewrite evidence/<id>.json on every run: keep what the unchanged tree produced
+const evBackup = '/verif/tmp/evidence.backup.' + process.pid
+sh(`mkdir -p /verif/tmp && rm -rf ${evBackup} && cp -r /verif/evidence ${evBackup}`)
 try {
   const ap = sh(`git -C /repo apply --whitespace=nowarn ${JSON.stringify(patch)}`)
   if (ap.status !== 0) { console.error('patch does not apply: ' + ap.stderr); process.exit(2) }
@@ -40,6 +43,7 @@ try {
   }
 } finally {
   restore()
+  sh(`cp -r ${evBackup}/. /verif/evidence/ && rm -rf ${evBackup}`)
   // leave the harness binary built from the restored tree
   sh('cd /verif && node -e "require(\'./js/lib/rw\').build(\'release\')"')
 }
